@@ -249,6 +249,44 @@ def fork_scenario(ctx, provider, point, order, child_fault=None):
     return evs, err
 
 
+def child_suffix(evs):
+    """For a fork inside an open session: the sessions the child starts AFTER it has ended the inherited one, as a trace
+    that begins in the state 'forked child outside any session' (PonyTxnTrace child header).  Returns (trace, events) or None."""
+    fork = next((i for i, e in enumerate(evs) if e['ev'] == 'Fork'), None)
+    if fork is None:
+        return None
+    end = next((i for i in range(fork + 1, len(evs)) if evs[i]['a'] == 2 and evs[i]['ev'] == 'End'), None)
+    if end is None:
+        return None
+    idle = next((i for i in range(end + 1, len(evs)) if evs[i]['a'] == 2 and evs[i]['ev'] == 'Idle'), None)
+    start = next((i for i in range(end + 1, len(evs)) if evs[i]['a'] == 2 and evs[i]['ev'] == 'Start'), None)
+    if idle is None or start is None:
+        return None
+    # the child's counters: the forking thread's up to the fork (the child is its copy), then the child's own
+    before = [e for e in evs[:fork] if e['a'] == 1] + [e for e in evs[fork:start] if e['a'] == 2]
+    nc = sum(1 for e in before if e['ev'] == 'Db' and e['op'] == 'connect' and e['out'] == 'ok')
+    nwl = sum(1 for e in before if e['ev'] == 'Body' and e['op'] in ('write', 'rawwrite'))
+    pooled = evs[idle]['pooled']
+    owner = {e['conn']: e['a'] for e in evs if e['ev'] == 'Db' and e['op'] == 'connect'}
+    if pooled and owner.get(pooled) == 2:
+        return None                      # the child already pooled a connection of its own: nothing inherited is left
+    suffix = [e for e in evs[start:] if e['a'] == 2 and e['ev'] != 'Dump']
+    fails = [e for e in suffix if e['ev'] == 'Db' and e['out'] == 'fail']
+    # the pool of a forked child holds the parent's connection together with the PARENT's pid (pid 1 of the model)
+    trace = dict(nthreads=0, faults=len(fails), fowner=2, evs=strip(suffix),
+                 child=dict(a=2, pool=pooled, poolPid=1 if pooled else 0, nc=nc, nwl=nwl))
+    return trace, suffix
+
+
+def later_foreign(evs):
+    """DB-API calls of the child on the parent's connections in sessions it started itself (after the inherited one ended)."""
+    owner = {e['conn']: e['a'] for e in evs if e['ev'] == 'Db' and e['op'] == 'connect'}
+    fork = next((i for i, e in enumerate(evs) if e['ev'] == 'Fork'), len(evs))
+    end = next((i for i in range(fork + 1, len(evs)) if evs[i]['a'] == 2 and evs[i]['ev'] == 'End'), len(evs))
+    return [(e['a'], e['op'], e['conn']) for e in evs[end + 1:]
+            if e['ev'] == 'Db' and e['a'] == 2 and e['op'] != 'connect' and owner.get(e['conn'], 2) != 2]
+
+
 def trace_of(evs):
     fails = [e for e in evs if e['ev'] == 'Db' and e['out'] == 'fail']
     return dict(nthreads=1, faults=len(fails), fowner=fails[0]['a'] if fails else 1, evs=strip(evs))
@@ -336,6 +374,37 @@ def run(ctx):
         tstates += res.distinct
         for i, x in zip(sel, r):
             results[i] = x
+    # sessions the child starts after it has ended an inherited session: validated from the state "forked child, idle"
+    suffixes = []
+    for i, (d, trace, evs) in enumerate(items):
+        if d['point'] in IN_SESSION_POINTS:
+            cs = child_suffix(evs)
+            if cs is None:
+                raise MachineryError('fork scenario %r: the child ran no session of its own after the inherited one' % (d,))
+            suffixes.append((i, cs[0]))
+    sres = {}
+    for provider in ('sqlite', 'generic'):
+        sel = [(i, t) for i, t in suffixes if items[i][0]['provider'] == provider]
+        r, res = txnlib.validate(ctx.scratch, [t for i, t in sel], provider=provider, tag='c36-suffix-' + provider)
+        tstates += res.distinct
+        for (i, t), x in zip(sel, r):
+            sres[i] = (t, x)
+    child_sessions_ok = 0
+    for i, (t, x) in sorted(sres.items()):
+        d, _, evs = items[i]
+        lf = later_foreign(evs)
+        if x['accepted'] and not lf:
+            child_sessions_ok += 1
+            continue
+        if x['accepted'] != (not lf) and not (x['inv'] or x['first_unmatched']):
+            raise MachineryError('TLC and the pid check disagree on the child sessions of %r: %r vs %r' % (d, x, lf))
+        ctx.mismatch('C36:%s:fork@%s:%s:child-next-session:%s' % (
+            d['provider'], d['point'], d['order'], x['inv'][1] if x['inv'] else ('uses-parent-connection' if lf else 'trace-rejected')),
+            'fork at %r (%s, %s runs first): the sessions the child starts after it ended the inherited session are not a behaviour of '
+            'a forked idle child (its pool holds connection %r recorded with the parent\'s pid): matched %d of %d events, invariant %r, '
+            'first unmatched %r; DB-API calls of these sessions on connections of the parent: %r' % (
+                d['point'], d['provider'], d['order'].split('-')[0], t['child']['pool'], x['reached'] - 1, x['len'], x['inv'],
+                x['first_unmatched'] and txnlib.brief(x['first_unmatched']), lf[:4]), replay=d)
     accepted = 0
     for i, (d, trace, evs) in enumerate(items):
         r = results[i]
@@ -363,7 +432,8 @@ def run(ctx):
                                                   r['inv'][1] if r['inv'] else 'trace-rejected'), what, replay=d)
     ctx.coverage.update({
         'states': states, 'transitions': transitions, 'tlc_runs': mc,
-        'traces_validated_against_impl': accepted, 'traces_executed': len(items), 'fork_points': points,
+        'traces_validated_against_impl': accepted + child_sessions_ok, 'traces_executed': len(items) + len(sres),
+        'child_session_traces_after_inherited_session': len(sres), 'fork_points': points,
         'providers': ['sqlite (SQLitePool)', 'generic (dbapiprovider.Pool + fake DB-API module)'],
         'trace_spec_states': tstates, 'exhaustive': True,
         'checker_cmd': 'tlc PonyTxn (NoForeignConnUse with Fork); tlc PonyTxnTrace',
@@ -380,5 +450,6 @@ def replay(ctx, rep):
         print('%3d %s' % (i, txnlib.brief(e)))
     bad = pid_check(evs)
     print('calls on foreign connections:', bad, 'errors:', err)
+    print('of these, in sessions the child started itself after the inherited one:', later_foreign(evs))
     if bad:
         ctx.violations.append('replayed')
